@@ -112,7 +112,7 @@ func renderResult(ast *parser.ASTNode, err error, ids map[string]int) string {
 }
 
 func isErrorResult(res string) bool { return strings.HasPrefix(res, "ERROR ") }
-func hasTree(res string) bool      { return strings.Contains(res, "TREE\n") }
+func hasTree(res string) bool       { return strings.Contains(res, "TREE\n") }
 
 // errorPosition extracts line / column of a rendered parser error.
 func errorPosition(res string) (line, pos int, ok bool) {
